@@ -752,8 +752,7 @@ void LASolver::printStatistics(std::ostream & out) {
 
 bool LASolver::shouldTryCutFromProof() const {
     if (this->config.produce_inter()) { return false; }
-    static unsigned long counter = 0;
-    return ++counter % 10 == 0;
+    return ++cutFromProofCounter % 10 == 0;
 }
 
 namespace {
